@@ -286,7 +286,8 @@ func genProp(rng *rand.Rand, tier string) []interface{} {
 			ts = treeSpec{Shape: randomShape(rng, nodes, i%3), Place: place, NodeIDs: seqInts(nodes)}
 		case 2: // the roster's generators
 			name = "gen"
-			g := []string{"binary", "star", "nary:3", fmt.Sprintf("big:2:%d", srv)}[rng.Intn(4)]
+			g := []string{"binary", "star", "nary:3", fmt.Sprintf("big:2:%d", srv), fmt.Sprintf("naryroot:2:%d", 1+rng.Intn(srv-1)),
+				fmt.Sprintf("naryroot:3:%d", srv-1)}[rng.Intn(6)]
 			ts = treeSpec{Gen: g}
 		default: // a chain: the tree is learnt from a server that learnt it itself
 			name = "chain"
